@@ -202,6 +202,8 @@ var c20Corpus = []string{
 	`select ?s, ?p from ?g where { ?s ?p /u<b> } ;`,
 	`select ?s, ?o, ?z from ?g where { ?s "p"@[] ?o . ?o "p"@[] ?z } ;`,
 	`select ?s, ?o from ?g, ?h where { ?s "p"@[] ?o } ;`,
+	`select ?c from ?g where { /u<a> "p"@[] ?c . ?c "p"@[] "x"^^type:text } ;`,
+	`select ?s, ?o, ?z from ?g where { ?s "p"@[] ?o . optional { ?o "p"@[] ?z } } ;`,
 	`insert data into ?g { /u<x> "p"@[] /u<y> } ;`,
 	`insert data into ?g, ?h { /u<x> "p"@[] /u<y> } ;`,
 	`delete data from ?g { /u<a> "p"@[] /u<b> } ;`,
@@ -262,21 +264,11 @@ func HarnessC20Faults() {
 }
 
 func c20Kind(qi int) string {
-	switch {
-	case qi <= 8:
-		return "select"
-	case qi <= 10:
-		return "insert"
-	case qi == 11:
-		return "delete"
-	case qi == 12:
-		return "construct"
-	case qi == 13:
-		return "deconstruct"
-	case qi == 14:
-		return "show"
-	case qi == 15:
-		return "create"
+	q := c20Corpus[qi]
+	for _, k := range []string{"select", "insert", "delete", "construct", "deconstruct", "show", "create", "drop"} {
+		if len(q) >= len(k) && q[:len(k)] == k {
+			return k
+		}
 	}
-	return "drop"
+	return "other"
 }
